@@ -424,6 +424,7 @@ struct World {
 		if (s.outcomes) V("C09", "two-outcomes-in-one-cycle", fmt("%s delivered after %s in the same cycle; %s", mname(m), mname(s.outcome), tail().c_str()));
 		if (!in.tasksAdded)
 			V("C09", fmt("outcome-without-any-task-added|%s", mname(m)), fmt("%s delivered although no task was added since activation (plan %s); %s", mname(m), planStr(in.plan).c_str(), tail().c_str()));
+		if (m == Method::PLAN_FAILED && s.curReportedFailure) stats.add("converse_planFailed_obligations_met");
 		if (m == Method::PLAN_FAILED) {
 			if (!in.anyFailMay()) V("C09", "planFailed-without-failure", fmt("planFailed delivered, no failure report outstanding; %s", tail().c_str()));
 			if (!s.fires.empty() || s.sawFire) { V("C09", "fire-in-planFailed-cycle", fmt("a task fired in the cycle that delivered planFailed; %s", tail().c_str())); }
